@@ -58,10 +58,12 @@ ScalarRule(k) ==
     [] k = "object"    -> [f |-> "id",        so |-> AnyT,                     lo |-> AnyT, same |-> AnyT]
     [] k = "LiteralString" -> [f |-> "str",   so |-> {"str"},                  lo |-> AnyT, same |-> {"str"}]
     [] k = "ByteString" -> [f |-> "b64",      so |-> {"str"},                  lo |-> {"str"}, same |-> {}]
+    \* "BytesIO and IO[bytes]: value is represented as base64 encoded string" (both load to a BytesIO)
+    [] k \in {"BytesIO", "IObytes"} -> [f |-> "b64bio", so |-> {"str"},          lo |-> {"str"}, same |-> {}]
     [] k \in MoreStringKinds -> [f |-> (IF k = "PathLike" THEN "Path" ELSE k), so |-> {"str"}, lo |-> {"str"}, same |-> {}]
 ScalarKinds == {"int", "float", "str", "bool", "Decimal", "Fraction", "complex", "None", "Any", "bytes", "bytearray",
                 "date", "time", "datetime", "timedelta", "UUID", "Path", "IPv4Address", "Pattern",
-                "object", "LiteralString", "ByteString"} \cup MoreStringKinds
+                "object", "LiteralString", "ByteString", "BytesIO", "IObytes"} \cup MoreStringKinds
 \* "Loader takes any string accepted by the constructor": whether a NON-string the raw constructor happens to take
 \* (IPv4Address(1), UUID/Path given other objects) is accepted is not decided by the documentation
 StringOnlyKinds == {"UUID", "Path", "IPv4Address"} \cup MoreStringKinds
